@@ -12,6 +12,26 @@ CHECKS = {
    text="One inductive step of every array operation (Get/Set/Insert/Append/Remove) from ANY array tree satisfying the representation invariant within the shape bound, element sizes symbolic: results equal the slice model, in-range requests never fail, VerifyArray + content + reopen-by-root-id hold afterwards, storage holds exactly the reachable slabs. The solver decides all size mixes at once; indices and shapes are forked.",
    note="Bounds: slab size T=256; root leaf with 0..3 (quick) / 0..5 (thorough) elements or root index slab over 2 (quick) / 2..3 (thorough) leaves of 2..3 / 2..5 elements; new element size 1..65536 (externalised through the real NewStorableSlab when above the inline limit). Outside: deeper trees, nested containers (see C10), other T.",
    ref="6/C01"),
+ "C02": dict(
+   text="One inductive step of every map operation (Get/Has of absent keys, Set new, Set existing, Remove present, Remove absent) from ANY map of single elements satisfying the representation invariant within the shape bound; all four digest levels of every key and all key/value sizes are symbolic, so one verdict covers every hash distribution: results equal the dictionary model, key-not-found exactly for absent keys, VerifyMap (which re-hashes every key) + content + reopen-by-root-id hold afterwards.",
+   note="Bounds: T=256; root leaf with 0..3 (quick) / 0..4 (thorough) keys or root index slab over 2 / 2..3 leaves of 2..3 / 2..4 keys; new value size 1..65536. Pre-states hold single elements only; collision groups are reached through C12's API-built histories. Outside: deeper trees, nested containers as values.",
+   ref="6/C02"),
+ "C09": dict(
+   text="After every step of the C01/C02 step harnesses and every history of the C10 harness (with returned storables disposed of), the set of slabs in storage equals the set reachable from the root: counted by an independent walk over index-slab children, slab references (incl. wrapped), inlined containers and large-value slabs; a dangling reference fails the walk.",
+   note="Bounds: as C01, C02, C10. Outside: external collision groups and bulk pop of multi-slab containers (being added).",
+   ref="6/C09"),
+ "C10": dict(
+   text="All histories of up to 2 (quick) / 3 (thorough) operations {child append/remove/set/bulk-pop, parent insert-before/remove-before/append} on a nested array reached through a live handle (the insertion handle or one obtained by lookup), child element sizes symbolic so the child crosses the inline limit in both directions by solver choice: after every operation the parent passes VerifyArray (recursing into the child, checking inline status and sizes), reading through the parent equals the model and the child's value id is unchanged. A second harness keeps two live handles and reports the recorded known finding (stale handle after root replacement) separately from any disagreement while both handles share the root.",
+   note="Bounds: T=256, nesting depth 2 (array in array), 0..1 (quick) / 0..2 (thorough) siblings. Outside: maps as parent/child (being added), depth 3, wrapped children.",
+   ref="6/C10"),
+ "C12": dict(
+   text="All insert histories of 2 (quick) / 3 (thorough) keys through the public API followed by 2 / 1 further operations (update, remove, absent lookup) with EVERY assignment of digests over 1, 2 or 4 levels symbolic and the collision limit symbolic in 0..255: dictionary semantics and VerifyMap after every operation; an insert is refused with CollisionLimitError exactly when the first-level digest is already shared by more than the limit of entries with distinct second-level digests, leaving the map unchanged; updates are always accepted.",
+   note="Bounds: T=256, value sizes 1..300, keys within the inline key limit. Outside: more keys per group (limits above the number of keys behave as 'never reached'), external collision groups larger than the bound.",
+   ref="6/C12"),
+ "C20": dict(
+   text="CheckStorageHealth on every valid forest of slab doubles within the bound (accepted, true root set returned, wrong expected root count rejected) and on every single corruption of the four kinds the property names (deleted referenced slab, extra unreferenced slab, slab referenced from two places, cross-owner reference), each applied at every position: rejected.",
+   note="Bounds: 3 (quick) / 5 (thorough) slabs, every parent assignment, one reference optionally nested in a non-reference wrapper, expected root count symbolic in -1..n+1. Outside: larger graphs; cyclic graphs (not produced by valid histories or the named corruptions; the engine observed that CheckStorageHealth does not terminate on some cycles, recorded in DESIGN.md as an observation outside C20).",
+   ref="6/C20"),
  "C05": dict(
    text="Split arithmetic of array data slabs for every legal slab size (T symbolic 256..32768) and every element-size mix within the inline limit: both halves inside [min,max], non-empty, sizes/counts/order/next-chain consistent; plus the tree invariant (VerifyArray) after every step of the C01 harness.",
    note="Bounds: leaves of 2..8 (quick) / 2..24 (thorough) elements for the split kernel; tree-level invariant as C01. Outside: larger leaves, map slabs (being added).",
